@@ -164,12 +164,23 @@ def gen_queries(rng, g, mon, names, n):
             if '~' in text:
                 continue
         qs.append((('list ' + text).strip(), ast, 'capsel', None))
+        if ast is not None and rng.random() < 0.3:
+            # straight afterwards a query that PRINTS the same but means something else (quoted string vs word vs number)
+            pats = [p for p in ast['pos'] + ast['neg'] if not joinref.is_any(p)]
+            tw = [(p, g.twin(p)) for p in pats]
+            tw = [(p, t) for p, t in tw if t is not None]
+            if tw:
+                p0, t0 = rng.choice(tw)
+                ast2 = {'pos': [t0 if x is p0 else x for x in ast['pos']], 'neg': [t0 if x is p0 else x for x in ast['neg']]}
+                qs.append((('list ' + mgen.Render().matcher(ast2)).strip(), ast2, 'capsel', None))
     return qs
 
 
 def run_one(ctx, rng, cands, spec):
     k = rng.randint(2, 4)
-    st = streams.build(rng, cands, k=k, n_each=tuple(spec['n_each']), tagged=True)
+    back = rng.choice([0.0, 0.0, 0.1])
+    st = streams.build(rng, cands, k=k, n_each=tuple(spec['n_each']), tagged=True, opts={'backsteps': back},
+                       t0=rng.randint(10**7, 10**9) if back else None)
     projs = [c05.project(e, st['names'][e['ci']], st['dialect']) for e in st['entries']]
     lines = [e['line'] for e in st['entries']]
     g = mgen.Gen(rng, mgen.vocab_of(projs), depth=1)
